@@ -562,13 +562,72 @@ def _finish(ctx, wall):
 Ctx.finish = _finish
 
 
+def replay_session(payload, fl):
+    """black-box failures: rebuild the command lines recorded with the failure and put them to the
+    real binary again (current tree), printing everything it answers"""
+    import session as S
+    lines = []
+    for key in ("script", "transcript", "context_lines", "traffic"):
+        v = fl.get(key)
+        if isinstance(v, list) and v:
+            lines = [x for x in v if isinstance(x, str) and not x.startswith("-> ")]
+            break
+    if not lines:
+        for key in ("position", "pos", "after"):
+            if isinstance(fl.get(key), str):
+                p = fl[key]
+                lines.append(p[4:] if p.startswith("pos ") else p)
+        g = fl.get("gos") or ([fl["go"]] if isinstance(fl.get("go"), str) else []) or ([fl["line"]] if isinstance(fl.get("line"), str) else [])
+        lines += [x for x in g if isinstance(x, str) and not x.startswith("(after)")]
+        if fl.get("clock") is not None:
+            lines.append("go wtime %s btime %s" % (fl["clock"], fl["clock"]) + (" movestogo %s" % fl["movestogo"] if fl.get("movestogo") else ""))
+    print(json.dumps(payload, indent=1)[:2500])
+    if not lines:
+        print("(no command lines recorded with this failure: nothing to put to the binary)")
+        return 0
+    bs = C.BuildState()
+    C.build_engine(bs)
+    if bs.engine_error:
+        print("engine does not build:", bs.engine_error[-300:])
+        return 1
+    e = S.Engine()
+    try:
+        print("--- replay against the current tree")
+        if not S.handshake(e):
+            print("no handshake")
+            return 1
+        for l in lines:
+            print(">>", l)
+            if l.split(" ")[0].strip() == "go":
+                r = S.go_and_wait(e, l, 30)
+                for x in r["infos"][-3:]:
+                    print("<<", x)
+                print("<<", r["best"], "(%.0f ms, bestmove lines: %s, readyok: %s)" % (
+                    ((r["t_best"] or 0) - r["t_go"]) * 1000 if r["answered"] else -1, r["n_best"], r["ready"]))
+            else:
+                e.send(l)
+                for _, x in e.drain(0.3):
+                    print("<<", x)
+        lb = fl.get("last_bytes")
+        if lb:
+            print(">> (raw)", lb)
+        e.close_stdin()
+        print("exit status after end of input:", e.wait_exit(5.0))
+    finally:
+        e.kill()
+    return 0
+
+
 def replay(prop, path):
     payload = json.load(open(path))
     fl = payload.get("failure", {})
     ops = fl.get("ops") or fl.get("via_b") or []
+    if not ops and isinstance(fl.get("where"), list) and fl["where"] and str(fl["where"][0]).startswith("pos "):
+        # search-family failures: position + search op (+ the expiry index as the last element)
+        w = [x for x in fl["where"] if isinstance(x, str)]
+        ops = [w[0], "gen all"] + [x for x in w[1:] if x.split(" ")[0] in ("searchd", "search", "sweep")]
     if not ops:
-        print(json.dumps(payload, indent=1)[:3000])
-        return 0
+        return replay_session(payload, fl)
     bs = C.BuildState()
     C.build_harness(bs)
     res = C.run_ops(ops, parallel=False)
